@@ -20,7 +20,7 @@ Open Scope Z_scope.
 Definition C03_statement : Prop := forall o s1 s2 h1 h2, is_fit o = true ->
   out (run s1 (h1 ++ [o])) = out (run s2 (h2 ++ [o])).
 
-(* As coded it fails in three ways, all replayed on the implementation by harness/c03.py.
+(* As coded it fails in two ways, both replayed on the implementation by harness/c03.py.
    (1) The hourly model WITHOUT a seed (the default: settings.seed = None) takes its seed from numpy's global generator;
        the property text excludes this case ("the same seed for the hourly model"), the witness shows the hypothesis
        [seeded] below is needed. *)
@@ -40,12 +40,6 @@ Theorem C03_caltrack_depends_on_thread_count_refuted :
 Proof. exists 1, 8, (FitCalTrack 1). split; [reflexivity|]. vm_compute. discriminate. Qed.
 Print Assumptions C03_caltrack_depends_on_thread_count_refuted.
 
-(* (3) ... and the hash salt of the interpreter (known finding C03-K2): two fresh single-threaded processes, PYTHONHASHSEED 0 and 1 *)
-Theorem C03_caltrack_depends_on_hash_salt_refuted :
-  exists k1 k2 o, seeded o = true /\ out (run (init_full 1 1 [] k1) [o]) <> out (run (init_full 2 1 [] k2) [o]).
-Proof. exists 0, 1, (FitCalTrack 1). split; [reflexivity|]. vm_compute. discriminate. Qed.
-Print Assumptions C03_caltrack_depends_on_hash_salt_refuted.
-
 Theorem C03_statement_refuted : ~ C03_statement.
 Proof.
   intros H. specialize (H (FitCalTrack 1) (init 1 1) (init 2 8) [] [] eq_refl). vm_compute in H. discriminate.
@@ -62,7 +56,7 @@ Theorem C03_fit_history_independent_partial : forall o s1 s2 h1 h2, seeded o = t
 Proof. exact history_independent. Qed.
 Print Assumptions C03_fit_history_independent_partial.
 
-(* CalTRACK hourly as well, between processes with the same pool size and the same hash salt *)
+(* CalTRACK hourly as well, between processes with the same pool size *)
 Theorem C03_fit_history_independent_same_pool_partial : forall o s1 s2 h1 h2, seeded o = true ->
   ct_env s1 = ct_env s2 -> out (run s1 (h1 ++ [o])) = out (run s2 (h2 ++ [o])).
 Proof. exact history_independent_same_pool. Qed.
@@ -148,11 +142,12 @@ Theorem C03_fit_independent_of_jit_cache : forall o p1 p2 t1 t2 c1 c2 h1 h2, see
 Proof. intros. apply history_independent; assumption. Qed.
 Print Assumptions C03_fit_independent_of_jit_cache.
 
-(* the hash salt of the interpreter is process state a fit may not read: same result under any two salts (the model may say
-   so, for every family but CalTRACK hourly, because of C03_no_hash_order_reaches_an_ordered_structure_partial below) *)
-Theorem C03_fit_independent_of_hash_salt : forall o p1 p2 t1 t2 c1 c2 k1 k2 h1 h2, seeded o = true -> thread_sensitive o = false ->
-  out (run (init_full p1 t1 c1 k1) (h1 ++ [o])) = out (run (init_full p2 t2 c2 k2) (h2 ++ [o])).
-Proof. intros. apply history_independent; assumption. Qed.
+(* the hash salt of the interpreter is process state a fit may not read: same result under any two salts -- every family,
+   CalTRACK hourly included since /repo 15304f59 (the model may say so because of
+   C03_no_hash_order_reaches_an_ordered_structure below) *)
+Theorem C03_fit_independent_of_hash_salt : forall o p1 p2 t c1 c2 k1 k2 h1 h2, seeded o = true ->
+  out (run (init_full p1 t c1 k1) (h1 ++ [o])) = out (run (init_full p2 t c2 k2) (h2 ++ [o])).
+Proof. intros. apply history_independent_same_pool; [assumption|reflexivity]. Qed.
 Print Assumptions C03_fit_independent_of_hash_salt.
 
 (* global state: a seeded fit does not move numpy's global generator; nothing ever writes the shared default list *)
@@ -216,21 +211,21 @@ Print Assumptions C03_no_shared_mutable_default.
 
 (* no iteration order of a set reaches an ordered structure (feature lists, column orders, documents), except two
    allow-listed sites that are order-free for a reason written next to the allow-list (Model/ReproFlow.v osite_ok) *)
-Definition C03_order_statement : Prop := forallb osite_ok order_sites = true.
-(* as coded it fails at one site, on the CalTRACK hourly path (known finding C03-K2, replayed by the harness: the same fit
-   in fresh single-threaded processes with PYTHONHASHSEED 0 and 1 gives different documents and predictions).  Frozen copy: *)
-Definition caltrack_predict_as_coded : osite :=
+Theorem C03_no_hash_order_reaches_an_ordered_structure :
+  forallb osite_ok order_sites = true.
+Proof. vm_compute. reflexivity. Qed.
+Print Assumptions C03_no_hash_order_reaches_an_ordered_structure.
+
+(* this was refuted until /repo 15304f59 (found by this check as C03-K2, proposed as C03-3.diff): CalTRACKSegmentModel.predict
+   ordered the columns of its dot product by list(set(parameters.keys()).intersection(..)), so the same CalTRACK hourly fit
+   in fresh processes with PYTHONHASHSEED 0 / 1 / 2 gave three different documents.  Frozen copy, kept as regression witness: *)
+Definition caltrack_predict_before_15304f59 : osite :=
   {| o_file := "opendsm/eemeter/models/hourly_caltrack/segmentation.py"; o_func := "CalTRACKSegmentModel.predict"; o_kind := "call";
      o_text := "list(set(parameters.keys()).intersection(set(design_matrix_granular.ke" |}.
-Theorem C03_no_hash_order_reaches_an_ordered_structure_refuted :
-  osite_ok caltrack_predict_as_coded = false /\ osite_known caltrack_predict_as_coded = true.
-Proof. vm_compute. split; reflexivity. Qed.
-Print Assumptions C03_no_hash_order_reaches_an_ordered_structure_refuted.
-(* partial: every other site of the daily / billing / hourly / CalTRACK-hourly packages and the shared helpers *)
-Theorem C03_no_hash_order_reaches_an_ordered_structure_partial :
-  forallb (fun o => osite_ok o || osite_known o) order_sites = true.
+Theorem C03_set_order_in_caltrack_predict_is_rejected :
+  osite_ok caltrack_predict_before_15304f59 = false.
 Proof. vm_compute. reflexivity. Qed.
-Print Assumptions C03_no_hash_order_reaches_an_ordered_structure_partial.
+Print Assumptions C03_set_order_in_caltrack_predict_is_rejected.
 
 (* what the rule rejects: leftover feature columns appended in set order *)
 Example C03_set_order_into_feature_list_is_rejected :
